@@ -410,7 +410,13 @@ def container_method(I, ref, name):
 def make_set(I, items):
     """set construction: duplicates are merged (forks on symbolic equality)"""
     out = []
+    seen_py = set()
     for x in items:
+        if isinstance(x, SStr) and x.py is not None and all(isinstance(y, SStr) and y.py is not None for y in out[:1]) and len(seen_py) == len(out):
+            if x.py not in seen_py:
+                seen_py.add(x.py)
+                out.append(x)
+            continue
         I.check_hashable(x)
         dup = False
         for y in out:
